@@ -371,8 +371,46 @@ func (r *microRun) proposeCC(n *node, a Act) {
 		}
 	}
 	s.ccLost[string(tag)] = s.ct.Lost
-	if err := n.rn.ProposeConfChange(cc); err == nil {
+	if (a.D>>8)&3 != 3 {
+		if err := n.rn.ProposeConfChange(cc); err == nil {
+			s.ct.ConfProposed++
+		}
+		return
+	}
+	// a batch: one proposal message carrying several entries (Step accepts any number), the membership
+	// change next to a normal entry or to a second membership change that is valid on top of the first
+	enc := func(c pb.ConfChangeI) (pb.Entry, bool) {
+		if v1, ok := c.AsV1(); ok {
+			d, err := v1.Marshal()
+			return pb.Entry{Type: pb.EntryConfChange, Data: d}, err == nil
+		}
+		v2 := c.AsV2()
+		d, err := v2.Marshal()
+		return pb.Entry{Type: pb.EntryConfChangeV2, Data: d}, err == nil
+	}
+	first, ok := enc(cc)
+	if !ok {
+		return
+	}
+	ents := []pb.Entry{first}
+	s.propSeq++
+	switch mod(a.D>>10, 3) {
+	case 0:
+		ents = append(ents, pb.Entry{Data: []byte(fmt.Sprintf("p%d", s.propSeq))})
+	case 1:
+		ents = append([]pb.Entry{{Data: []byte(fmt.Sprintf("p%d", s.propSeq))}}, ents...)
+	default:
+		if c2, ok := single(mod(a.C>>4, 3), a.C>>6); ok {
+			tag2 := []byte(fmt.Sprintf("cc%d", s.propSeq))
+			if e2, ok := enc(pb.ConfChangeV2{Transition: pb.ConfChangeTransition(mod(a.D>>6, 3)), Changes: []pb.ConfChangeSingle{c2}, Context: tag2}); ok {
+				s.ccLost[string(tag2)] = s.ct.Lost
+				ents = append(ents, e2)
+			}
+		}
+	}
+	if err := n.rn.Step(pb.Message{Type: pb.MsgProp, From: n.id, Entries: ents}); err == nil {
 		s.ct.ConfProposed++
+		s.ct.BatchProposals++
 	}
 }
 
@@ -475,6 +513,10 @@ func outcomeOf(s *sim, executed, profile int) kit.Outcome {
 	C.Label("conf-changes-proposed", ct.ConfProposed)
 	C.Label("conf-changes-committed", ct.ConfCommitted)
 	C.Label("joint-configs-entered", ct.JointCommitted)
+	C.Label("membership-changes-checked-one-at-a-time", ct.OneAtATimeChecks)
+	C.Label("proposal-batches-with-a-membership-change", ct.BatchProposals)
+	C.Label("commit-advances-checked-against-persisted-quorum", ct.CommitQuorumChecks)
+	C.Label("of-which-in-a-joint-configuration", ct.JointCommitChecks)
 	C.Label("leader-transfers-requested", ct.Transfers)
 	C.Label("group-partitions", ct.Partitions)
 	C.Label("bursts-of-2+-messages-without-a-ready", ct.Bursts)
@@ -575,7 +617,7 @@ func genCase(t *rapid.T) Case {
 			a.A = ubits(t, 2)
 			a.B = pickInt(t, []int{0, 1, 2, 3, 3, 4, 4})
 			a.C = ubits(t, 6)
-			a.D = ubits(t, 8)
+			a.D = ubits(t, 12)
 		}
 		c.Acts = append(c.Acts, a)
 	}
